@@ -33,7 +33,18 @@ impl SystemTime {
             return SystemTime(kernel::EPOCH_BASE_NS);
         }
         let id = kernel::me();
-        SystemTime(with(|k| k.systime_ns(id)))
+        let (t, preempt) = with(|k| {
+            let t = k.systime_ns(id);
+            let preempt = k.preempt_after_clock && !k.finished && k.no_preempt.is_none() && k.node_of(id).is_some();
+            if preempt {
+                k.fault("clock_preempt_point");
+            }
+            (t, preempt)
+        });
+        if preempt && !std::thread::panicking() {
+            shuttle::thread::yield_now();
+        }
+        SystemTime(t)
     }
     pub fn duration_since(&self, earlier: SystemTime) -> Result<Duration, SystemTimeError> {
         if self.0 >= earlier.0 {
